@@ -397,7 +397,8 @@ def run_binary(binary, test, ops_line, tag, launch=None):
         prog = os.path.join(d, 'prog.test')
         shutil.copy(binary, prog)
         os.chmod(prog, 0o755)
-        env = c10env({'VERIF_OPS': ops_path, 'VERIF_OUT': out_path, 'VERIF_SEED': str(C.seed()), 'VERIF_C10_SELF': launch['self']})
+        env = c10env({'VERIF_OPS': ops_path, 'VERIF_OUT': out_path, 'VERIF_SEED': str(C.seed()), 'VERIF_C10_SELF': launch['self'],
+                      'VERIF_C10_OTHER': launch.get('other', '')})
         if launch.get('path_dir'):
             env['PATH'] = launch['path_dir'] + os.pathsep + env.get('PATH', '')
         try:
@@ -743,11 +744,19 @@ def self_histories(cases, comp, rng, tier):
                  ('delete', gotool, None, False), ('chmod000', ob, None, root), ('replace-same', ob, None, True)]
         if cid == 'sym.as-linked':
             plans = plans[:2]
+        if cid == 'ext.as-linked':
+            plans.append(('replace-other', case['binary'], None, True))
         for k, (act, argv0, pd, openable) in enumerate(plans):
             h = dict(case)
             h['id'] = f'{cid}.self-{act}.{k}'
             h['launch'] = {'self': act, 'argv0': argv0, 'path_dir': pd}
             h['desc'] = dict(case['desc'], open=openable)
+            if act == 'replace-other':
+                # goom will read the OTHER program's tables: that file is the model's input (the model transcribes the code as it is);
+                # the oracle keeps judging by this process' own tables and the runtime.  Recorded finding, see run().
+                h['launch']['other'] = ob
+                h['desc'] = dict(by_id[other]['desc'], open=True)
+                h['replaced'] = True
             h['queries'] = small_queries(case, comp, rng.fork('q-' + h['id']), 240 if tier == 'quick' else 2000, 20)
             hs.append(h)
     return hs
@@ -793,7 +802,8 @@ def run(tier):
             'data symbol without a Go-level handle in the probe: compared with file value + known bias only': 0}
     total = nontriv = agreed = better = 0
     distinct = set()
-    bad, diffs, noaddr_hits = [], [], []
+    bad, diffs, noaddr_hits, replaced_hits = [], [], [], []
+    h_replaced = lambda c: bool(c.get('replaced'))
     for case in hist:
         run_case(case, exe)
         st = stats.setdefault(case['id'], {})
@@ -816,6 +826,11 @@ def run(tier):
                     st['direct-truth (&v / func pointer) confirmed'] = st.get('direct-truth (&v / func pointer) confirmed', 0) + 1
             why = oracle(case, q, o, rt)
             m = case['model'][i] if case['model'] else None
+            if h_replaced(case) and (why or (m is not None and m != o)):
+                # (model and code agree with each other here — both read the wrong file; only the oracle objects)
+                if why:
+                    replaced_hits.append((case, i, why))
+                    continue
             if why and why.startswith(NOADDR):
                 # genuine defect recorded as a finding (fix drafted: fixes/F27-c10-symkinds.diff): reported once, under its key; the
                 # model is the repaired behaviour, so its disagreement on exactly these calls is the same finding
@@ -847,6 +862,11 @@ def run(tier):
         q = case['queries'][i][0]
         out.violation(f'[{case["id"]}] {q}: {why} ({len(noaddr_hits)} such calls in this run)', replay_body(case, comp_spec, [q], i, why),
                       key='symtab-entry-without-address')
+    if replaced_hits:
+        case, i, why = replaced_hits[0]
+        q = case['queries'][i][0]
+        out.violation(f'[{case["id"]}] {q}: {why} — the file at the executable\'s path was replaced by another program before the first lookup '
+                      f'({len(replaced_hits)} such calls)', replay_body(case, comp_spec, [q], i, why), key='executable-replaced-by-other-program')
     seen = set()
     # deterministic histories first, executables exactly as linked first, one line per history
     for case, i, why in sorted(bad, key=lambda b: (bool(b[0].get('g')), b[0]['variant'] != 'as-linked')):
@@ -908,7 +928,7 @@ def run(tier):
                 'non-trivial = the call returned an address; distinct by (executable, call, address). as-linked executables: every pclntab function, every ELF symbol, '
                 'cross-kind and near-miss names; patched executables: a random sample of both tables plus the generated symbols (thorough: complete sweep also for one text slide, one data slide and the double slide)',
         'distribution': {'executables': per_mode, 'histories': len(hist), 'observations_by_lane': lanes, 'processes_rerun_once_after_dying': sum(1 for h in hist if h.get('retried')), 'outcomes_by_history': stats, 'oracle_complaints': len(bad),
-                         'model_disagreements': len(diffs), 'exact_answers_where_the_model_expects_an_unreadable_table_error': better, 'calls_hitting_known_finding_symtab_entry_without_address': len(noaddr_hits), 'companion': comp_spec, 'addresses_returned': nontriv,
+                         'model_disagreements': len(diffs), 'exact_answers_where_the_model_expects_an_unreadable_table_error': better, 'calls_hitting_known_finding_symtab_entry_without_address': len(noaddr_hits), 'calls_hitting_known_finding_executable_replaced': len(replaced_hits), 'companion': comp_spec, 'addresses_returned': nontriv,
                          'of_which_judged_by_a_weaker_oracle': weak},
         'samples': [{'history': h['id'], 'query': h['queries'][k][0][:120], 'impl': h['impl'][k], 'runtime': h['rt'][k][:120],
                      'model': h['model'][k] if h['model'] else None} for h in hist[:6] for k in (0, len(h['queries']) // 2)],
@@ -959,6 +979,8 @@ def replay(body):
             link = os.path.join(la['path_dir'], la['argv0'])
             if not os.path.lexists(link):
                 os.symlink(ob, link)
+    if (body.get('launch') or {}).get('other'):
+        exe = None            # goom reads another program's file there; the replay shows the oracle's verdict only
     rc = 0
     for attempt in range(40 if body.get('g') else 1):      # a race: repeat fresh processes until it shows
         run_case(case, exe)
